@@ -115,6 +115,9 @@ type Mail struct {
 	Oracle    string
 	OKs, NOs  int
 	hook      func(*wire.Result) // called with the result of the action's main command
+	// NoSelfCopy redirects COPY/MOVE whose destination is the session's selected mailbox
+	// (finding F08) to the next mailbox.
+	NoSelfCopy bool
 }
 
 // NewMail logs nsess sessions in and creates nbox-1 mailboxes besides INBOX.
@@ -327,6 +330,10 @@ func (m *Mail) tame(a core.Action) core.Action {
 	case "store":
 		if sc.C("flagcase") == 0 {
 			b.A[5] = 0
+		}
+	case "copy", "move":
+		if si := abs(a.S) % len(m.Sess); m.NoSelfCopy && m.Sel[si] >= 0 && abs(b.A[3])%len(m.Boxes) == m.Sel[si] {
+			b.A[3] = m.Sel[si] + 1
 		}
 	}
 	return b
